@@ -236,7 +236,9 @@ fn history_case(tag: &'static str, i: u64, seed: u64, cfg: SnapCfg, out: &mut Ca
     for way in 0..4 {
         let c2 = ChainRef::new();
         c2.0.borrow_mut().serve_snapshot = Some(Some((crate::srv::version_uuid(777), encode_snapshot(&poison_tasks))));
-        let mut r = new_replica(60 + way, StoreKind::Mem, &c2);
+        // both storage backends have their own notion of "empty"
+        let poison_kind = if i % 3 == 0 { StoreKind::Sqlite } else { StoreKind::Mem };
+        let mut r = new_replica(60 + way, poison_kind, &c2);
         let t = Uuid::from_u128(0xbeef);
         let way_name = match way {
             0 => {
@@ -284,6 +286,9 @@ fn history_case(tag: &'static str, i: u64, seed: u64, cfg: SnapCfg, out: &mut Ca
         }
         let _ = asked;
         out.count("poison_offers_refused", 1);
+        if poison_kind == StoreKind::Sqlite {
+            out.count("poison_offers_refused_sqlite", 1);
+        }
     }
     chain.0.borrow_mut().serve_snapshot = None;
     if i < 2 {
